@@ -255,6 +255,16 @@ func (sc *SubCache[EntityT, ExcerptT, CacheT]) Build() <-chan BuildEvent {
 				return
 			}
 
+			// what is stored locally may be corrupt (or come from a hostile remote through an older
+			// version): excerpts can only be computed from a valid entity
+			if err := e.Entity.Validate(); err != nil {
+				out <- BuildEvent{
+					Typename: sc.typename,
+					Err:      errors.Wrapf(err, "%s %s is invalid", sc.typename, e.Entity.Id()),
+				}
+				return
+			}
+
 			cached := sc.makeCached(e.Entity, sc.entityUpdated)
 			excerpt := sc.makeExcerpt(cached)
 
